@@ -341,7 +341,46 @@ def body_cli(case, rec):
         remap.rmtree(d)
 
 
+@st.composite
+def second_round_cases(draw):
+    """
+    Second curation round: the input assembly is the AGP of an earlier round, so its fragments carry tags (Cut, Painted,
+    chromosome names); one such input scaffold is missing from the map altogether and comes back as left-over sequence.
+    """
+    c = draw(gen.tagged_case(many_painted=True, max_scaffolds=7, max_contigs=4, unloc_weight=4, two_haplotypes=False, target_mode=False))
+    tagsets = [["Cut"], ["X"], ["Painted", "X"], ["Painted", "W", "Cut"], ["Painted"], ["B1"]]
+    for _n, rows in c["input"]:
+        if draw(st.booleans()):
+            ts = draw(st.sampled_from(tagsets))
+            for r in rows:
+                if r[0] == "F" and draw(st.integers(0, 3)) > 0:
+                    r.append(list(ts))
+    names = [n for n, _r in c["input"]]
+    if len(names) > 1:
+        gone = draw(st.sampled_from(names))
+        new_map = []
+        for pn, rows in c["map"]:
+            frs = [r for r in rows if r[0] == "F" and r[1] != gone]
+            if frs:
+                out = []
+                for k, r in enumerate(frs):
+                    if k:
+                        out.append(list(gen.PRETEXT_GAP))
+                    out.append(r)
+                new_map.append([pn, out])
+        if new_map:
+            c["map"] = new_map
+    return c
+
+
 SUBS = [
+    Sub("second_round", kind="hyp", strategy=second_round_cases, body=body,
+        budget={"quick": 4000, "thorough": 60000}, desc="input fragments carry tags of an earlier curation round (Cut, Painted, X ...) and one input scaffold is absent from the map"),
+    Sub("files", kind="hyp", strategy=lambda: st.one_of(
+            gen.tagged_case(max_scaffolds=6, max_contigs=3, two_haplotypes=True, primary_mode=True, many_painted=True, unprefixed_in_primary=True),
+            gen.tagged_case(max_scaffolds=6, max_contigs=3, two_haplotypes=False, many_painted=True)),
+        body=lambda case, rec: __import__("vf.props.c20", fromlist=["x"]).body_files(case, rec), shrink=False,
+        budget={"quick": 320, "thorough": 4000}, desc="written order (autosomes, named chromosomes, unplaced) in the files of the CLI, incl. the merged all_haplotigs file of Primary mode (same body as C20 'files')"),
     Sub("texel", kind="hyp", strategy=lambda: gen.tagged_case(many_painted=True, max_scaffolds=8, max_contigs=5, unloc_weight=3), body=body,
         budget={"quick": 12000, "thorough": 250000}, desc="names, ranks, order and CSVs on texel-grid maps (lengths taken from the output)"),
     Sub("exact", kind="hyp", strategy=lambda: gen.tagged_case(many_painted=True, exact=True, max_scaffolds=8, max_contigs=5, unloc_weight=3), body=body_exact,
